@@ -1,4 +1,6 @@
+import Mathlib.Tactic.SplitIfs
 import BioscrapeModel.Model.EntryPoint
+import BioscrapeModel.Model.Loops
 
 /-
 C07 — every simulation mode returns a complete, correctly labelled result.
@@ -6,6 +8,11 @@ C07 — every simulation mode returns a complete, correctly labelled result.
 The option lattice is a genuine finite table: the theorems below are checked by kernel evaluation
 over the *whole* lattice (128 combinations), against the dispatch model and against the result-class
 constructors regenerated from the source by the translator on every run.
+
+Second part (any network, seed, grid — by induction over the loop, not a table): a run of the SSA or the delay
+simulator's loop that comes back without a sampling failure has written exactly one row per requested time point
+(`ssa_run_complete`, `delay_run_complete`), and whatever the first iteration writes is the initial condition with the
+rules applied (`ssa_first_rows`).  The loops are the ones run bit for bit against the implementation by C05/C06/C09/C10.
 -/
 namespace Bioscrape.C07
 open Bioscrape.Entry Bioscrape.Generated
@@ -98,6 +105,108 @@ def dispatchOk (o : Options) : Bool :=
 safe interface when a Model is given; species names are available exactly when a Model was passed. -/
 theorem entry_dispatch : ∀ o ∈ lattice, dispatchOk o = true := by
   decide +kernel
+
+/-! ### Complete results: one row per requested time point
+
+The simulators' loops (`Model/Loops.lean`, run bit for bit against the implementation by the checks of C05, C06, C09 and
+C10) write rows only while passing grid times.  For every network, seed, grid and amount of fuel: a run of the SSA or the
+delay simulator that comes back without a sampling failure has written exactly one row per requested time point. -/
+
+section complete
+open Bioscrape
+variable {σ α : Type} [Zero α] [One α] [Add α] [Sub α] [Mul α] [Div α] [Neg α] [NatCast α] [IntCast α]
+  [LT α] [LE α] [DecidableLT α] [DecidableLE α] [Transc α] [Trunc α]
+
+theorem recordCount_le (t : α) (l : List α) : recordCount t l ≤ l.length := by
+  induction l with
+  | nil => simp [recordCount]
+  | cons T rest ih => unfold recordCount; split <;> simp <;> omega
+
+/-- rows written so far = index of the next time point ≤ number of requested time points; no `break` taken. -/
+def Filling (n : Nat) (s : LoopState σ α) : Prop := s.rows.length = s.idx ∧ s.idx ≤ n ∧ s.stop = false
+
+theorem runLoop_filling (iter : LoopState σ α → LoopState σ α) (n : Nat)
+    (hstep : ∀ s, Filling n s → Filling n (iter s)) :
+    ∀ (fuel : Nat) (s s' : LoopState σ α), Filling n s → runLoop iter n fuel s = some s' →
+      Filling n s' ∧ ¬ (s'.idx < n ∧ ¬ s'.stop ∧ ¬ s'.bad) := by
+  intro fuel
+  induction fuel with
+  | zero =>
+    intro s s' h hrun
+    unfold runLoop at hrun
+    split at hrun
+    · exact absurd hrun (by simp)
+    · rename_i hc; cases hrun; exact ⟨h, hc⟩
+  | succ fuel ih =>
+    intro s s' h hrun
+    unfold runLoop at hrun
+    split at hrun
+    · exact ih _ _ (hstep s h) hrun
+    · rename_i hc; cases hrun; exact ⟨h, hc⟩
+
+/-- a loop that keeps `Filling` and comes back without a sampling failure has filled every row. -/
+theorem run_complete (iter : LoopState σ α → LoopState σ α) (n : Nat)
+    (hstep : ∀ s, Filling n s → Filling n (iter s)) (fuel : Nat) (s s' : LoopState σ α) (h : Filling n s)
+    (hrun : runLoop iter n fuel s = some s') (hbad : s'.bad = false) : s'.rows.length = n := by
+  obtain ⟨⟨h1, h2, h3⟩, hc⟩ := runLoop_filling iter n hstep fuel s s' h hrun
+  have : ¬ s'.idx < n := fun hlt => hc ⟨hlt, by simp [h3], by simp [hbad]⟩
+  omega
+
+theorem step_idx_le (times : List α) (t : α) (idx : Nat) (h : idx ≤ times.length) :
+    idx + recordCount t (times.drop idx) ≤ times.length := by
+  have := recordCount_le t (times.drop idx)
+  rw [List.length_drop] at this
+  omega
+
+theorem ssaIter_filling (g : Gen σ α) (m : SimModel α) (times : List α) (s : LoopState σ α)
+    (h : Filling times.length s) : Filling times.length (ssaIter g m times s) := by
+  obtain ⟨h1, h2, h3⟩ := h
+  have hk := fun t => step_idx_le times t s.idx h2
+  unfold Filling ssaIter
+  simp only
+  split_ifs <;> simp [replicateRow, List.length_append, List.length_replicate, h1, h3, hk]
+
+theorem delayApply_filling (g : Gen σ α) (m : SimModel α) (times : List α) (s : LoopState σ α) (d : DelayDecision σ α)
+    (h : Filling times.length s) : Filling times.length (delayApply g m times s d) := by
+  obtain ⟨h1, h2, h3⟩ := h
+  have hk := fun t => step_idx_le times t s.idx h2
+  unfold Filling delayApply
+  simp only
+  split_ifs <;> (try split) <;> (try split_ifs) <;>
+    simp [replicateRow, List.length_append, List.length_replicate, h1, h3, hk]
+
+/-- **a stochastic simulation returns one row per requested time point** (any network, seed, grid). -/
+theorem ssa_run_complete (g : Gen σ α) (m : SimModel α) (times x0 p0 : List α) (g0 : σ) (vol0 : α) (q0 : DQ α)
+    (fuel : Nat) (s' : LoopState σ α)
+    (hrun : runLoop (ssaIter g m times) times.length fuel (initState m x0 p0 g0 vol0 q0) = some s')
+    (hbad : s'.bad = false) : s'.rows.length = times.length :=
+  run_complete _ _ (ssaIter_filling g m times) fuel _ s' (by simp [Filling, initState]) hrun hbad
+
+/-- **so does a simulation with delays.** -/
+theorem delay_run_complete (g : Gen σ α) (m : SimModel α) (times x0 p0 : List α) (g0 : σ) (vol0 : α) (q0 : DQ α)
+    (fuel : Nat) (s' : LoopState σ α)
+    (hrun : runLoop (delayIter g m times) times.length fuel (initState m x0 p0 g0 vol0 q0) = some s')
+    (hbad : s'.bad = false) : s'.rows.length = times.length :=
+  run_complete _ _ (fun s hs => delayApply_filling g m times s (delayDecide g m times s) hs) fuel _ s'
+    (by simp [Filling, initState]) hrun hbad
+
+/-- **every row of the first iteration is the initial condition with the rules applied**: whatever the first
+iteration of the SSA loop writes (the rows for the grid times it passes before anything fires) is the rule-updated
+initial state. -/
+theorem ssaIter_new_rows (g : Gen σ α) (m : SimModel α) (times : List α) (s : LoopState σ α) :
+    ∃ k, (ssaIter g m times s).rows
+      = s.rows ++ replicateRow k (applyRules m.rules s.x s.p 1 s.t m.dt s.ruleStep).1 := by
+  unfold ssaIter
+  simp only [apply_ite LoopState.rows, ite_self]
+  exact ⟨_, rfl⟩
+
+theorem ssa_first_rows (g : Gen σ α) (m : SimModel α) (times x0 p0 : List α) (g0 : σ) (vol0 : α) (q0 : DQ α) :
+    ∃ k, (ssaIter g m times (initState m x0 p0 g0 vol0 q0)).rows
+      = replicateRow k (applyRules m.rules x0 p0 1 m.t0 m.dt true).1 := by
+  obtain ⟨k, hk⟩ := ssaIter_new_rows g m times (initState m x0 p0 g0 vol0 q0)
+  exact ⟨k, by rw [hk]; simp [initState]⟩
+
+end complete
 
 /-! ### Non-vacuity -/
 example : lattice.length = 128 := by decide +kernel
